@@ -671,7 +671,11 @@ impl World {
                 let si = pick(*set, self.sets.len());
                 let h = self.rxs.remove(cand[pick(*rx, cand.len())]);
                 let RealRx::Typed(r) = h.real else { unreachable!() };
-                let id = self.sets[si].real.as_mut().unwrap().add(r).map_err(|e| Failure::new("set:add-failed", format!("add: {}", e)))?;
+                // a third of the members join through the untyped entry point (what the router and
+                // the async layer use)
+                let real_set = self.sets[si].real.as_mut().unwrap();
+                let added = if *rx % 3 == 1 { real_set.add_opaque(r.to_opaque()) } else { real_set.add(r) };
+                let id = added.map_err(|e| Failure::new("set:add-failed", format!("add: {}", e)))?;
                 if self.sets[si].members.iter().any(|(i, _)| *i == id) {
                     wfail!("set:duplicate-id", "add returned id {} which a live member already has", id);
                 }
